@@ -76,20 +76,82 @@ Fixpoint lossless (t: sty) : bool :=
   | SDict kt vt => key_id kt && lossless vt
   | _ => true end.
 
-Fixpoint names_nodup (l: list sfield) : bool :=
-  match l with
-  | [] => true
-  | f :: r => negb (existsb (fun g => String.eqb f.(sf_name) g.(sf_name)) r) && names_nodup r end.
-
 Definition cls_ok (c: scls) : bool :=
   names_nodup c.(sc_fields) && forallb (fun f => lossless f.(sf_ty)) c.(sc_fields).
 
-Lemma sfind_In E c k : sfind E c = Some k -> In k E.
+(* ---- TypedDict: walking a dict whose keys are already in canonical order gives it back ---- *)
+Lemma look_app {D} (a b: list (pv * D)) n :
+  look (a ++ b) n = match look a n with Some d => Some d | None => look b n end.
 Proof.
-  induction E as [|x E IH]; cbn [sfind]; [discriminate|].
-  destruct (String.eqb (sc_name x) c).
-  - intros H. inversion H. left. reflexivity.
-  - intros H. right. apply IH. exact H.
+  induction a as [|[key d] a IH]; [reflexivity|].
+  cbn [app look]. destruct (py_eq key (VStr n)); [reflexivity | exact IH].
+Qed.
+
+Lemma td_sorted_nil order : td_sorted order [] = true.
+Proof. destruct order; reflexivity. Qed.
+
+Lemma td_sorted_look_none order : forall kvs n, td_sorted order kvs = true ->
+  (forall g, In g order -> String.eqb (sf_name g) n = false) -> look kvs n = None.
+Proof.
+  induction order as [|f order IH]; intros kvs n Hs Hn.
+  - destruct kvs; [reflexivity | discriminate Hs].
+  - destruct kvs as [|[key x] r]; [reflexivity|]. cbn [td_sorted] in Hs.
+    destruct (py_eq key (VStr (sf_name f))) eqn:Ek.
+    + apply py_eq_str_l in Ek. subst key. cbn [look]. rewrite py_eq_str_str, (Hn f (or_introl eq_refl)).
+      apply (IH r n Hs). intros g Hg. apply Hn. right. exact Hg.
+    + apply (IH _ n Hs). intros g Hg. apply Hn. right. exact Hg.
+Qed.
+
+Lemma td_go_id ms order : names_nodup order = true -> forall (kvs pre: list (pv * pv)),
+  td_sorted order kvs = true ->
+  (forall f, In f order -> look pre (sf_name f) = None) ->
+  (forall f, In f order -> sf_opt f = false -> look (pre ++ kvs) (sf_name f) <> None) ->
+  td_go (fun _ x => Ok x) (fun _ => None) ms (pre ++ kvs) order = Ok kvs.
+Proof.
+  induction order as [|f order IH]; intros Hn kvs pre Hs Hpre Hreq.
+  - destruct kvs; [reflexivity | discriminate Hs].
+  - cbn [names_nodup] in Hn. apply andb_prop in Hn. destruct Hn as [Hh Hr]. apply negb_true_iff in Hh.
+    cbn [td_go]. unfold td_field.
+    assert (Hskip: td_sorted order kvs = true -> look (pre ++ kvs) (sf_name f) = None ->
+                   td_go (fun _ x => Ok x) (fun _ => None) ms (pre ++ kvs) (f :: order) = Ok kvs).
+    { intros Hs' Hl. cbn [td_go]. unfold td_field. rewrite Hl.
+      destruct (sf_opt f) eqn:Eo.
+      - apply (IH Hr kvs pre Hs'); [intros g Hg; apply Hpre; right; exact Hg | intros g Hg; apply Hreq; right; exact Hg].
+      - exfalso. apply (Hreq f (or_introl eq_refl) Eo). exact Hl. }
+    destruct kvs as [|[key x] r].
+    + apply Hskip; [apply td_sorted_nil|]. rewrite app_nil_r. apply Hpre. left. reflexivity.
+    + cbn [td_sorted] in Hs. destruct (py_eq key (VStr (sf_name f))) eqn:Ek.
+      * pose proof (py_eq_str_l _ _ Ek) as Hkey. subst key.
+        assert (Hl: look (pre ++ (VStr (sf_name f), x) :: r) (sf_name f) = Some x).
+        { rewrite look_app, (Hpre f (or_introl eq_refl)). cbn [look]. rewrite Ek. reflexivity. }
+        rewrite Hl.
+        assert (Hrest: td_go (fun _ x0 => Ok x0) (fun _ => None) ms (pre ++ (VStr (sf_name f), x) :: r) order = Ok r).
+        { replace (pre ++ (VStr (sf_name f), x) :: r) with ((pre ++ [(VStr (sf_name f), x)]) ++ r) by (rewrite <- app_assoc; reflexivity).
+          apply (IH Hr r (pre ++ [(VStr (sf_name f), x)]) Hs).
+          - intros g Hg. rewrite look_app, (Hpre g (or_intror Hg)). cbn [look].
+            rewrite py_eq_str_str, (names_nodup_notin f order g Hh Hg). reflexivity.
+          - intros g Hg Ho. rewrite <- app_assoc. apply (Hreq g (or_intror Hg) Ho). }
+        destruct (sf_opt f); cbn [bind]; rewrite Hrest; reflexivity.
+      * apply Hskip; [exact Hs|]. rewrite look_app, (Hpre f (or_introl eq_refl)).
+        apply (td_sorted_look_none order _ _ Hs). intros g Hg.
+        rewrite String.eqb_sym. apply (names_nodup_notin f order g Hh Hg).
+Qed.
+
+(* ---- NamedTuple: item-wise round trip ---- *)
+Lemma nt_items_rt (qc: sfield -> pv -> bool) (run1 run2: sfield -> pv -> res pv) k1 m1 k2 m2 fds (l: list pv) r :
+  nt_all qc fds l = true ->
+  (forall f x y, In f fds -> In x l -> qc f x = true -> run1 f x = Ok y -> run2 f y = Ok x) ->
+  nt_items run1 k1 m1 fds l = Ok r -> nt_items run2 k2 m2 fds r = Ok l.
+Proof.
+  revert fds r. induction l as [|x l IH]; intros fds r HA Hr H.
+  - destruct fds as [|f rest]; [inversion H; reflexivity | discriminate HA].
+  - destruct fds as [|f rest]; [discriminate HA|]. cbn [nt_items] in H.
+    cbn [nt_all] in HA. apply andb_prop in HA. destruct HA as [Hq HA].
+    destruct (run1 f x) as [y|] eqn:Ey; [|discriminate H].
+    destruct (nt_items run1 k1 m1 rest l) as [ys|] eqn:Eys; [|discriminate H]. inversion H; subst.
+    cbn [nt_items]. rewrite (Hr f x y (or_introl eq_refl) (or_introl eq_refl) Hq Ey).
+    rewrite (IH rest ys HA); [reflexivity | | exact Eys].
+    intros f0 x0 y0 Hf0 Hx0. apply Hr; right; assumption.
 Qed.
 
 Section C01.
@@ -127,9 +189,12 @@ Section C01.
     | _ => true end.
   Proof. destruct v; reflexivity. Qed.
 
+  Lemma is_none_eq0 x : is_none x = true -> x = VNone.
+  Proof. destruct x; try discriminate. reflexivity. Qed.
+
   (* a non-None conforming value never encodes to None (needed under Optional) *)
   Lemma enc_not_none v : forall t w,
-    conf E v t = true -> is_none v = false -> atom_ok v = true ->
+    conf_ord E v t = true -> is_none v = false -> atom_ok v = true ->
     ref_enc E P v t = Ok w -> is_none w = false.
   Proof.
     intros t. induction t; intros w HC HN HA HE; rewrite conf_unfold in HC; rewrite ref_enc_unfold in HE.
@@ -147,23 +212,35 @@ Section C01.
       match type of HE with (bind ?X _ = _) => destruct X end; inversion HE. reflexivity.
     - destruct v; try discriminate. destruct (mapM _ _); inversion HE. reflexivity.
     - (* Optional *) rewrite HN in HE, HC. cbn [orb] in HC. apply (IHt w HC HN HA HE).
-    - destruct v; try discriminate. destruct (sfind E c); [|discriminate].
+    - destruct v; try discriminate. destruct (sfind E _ c); [|discriminate].
+      match type of HE with (bind ?X _ = _) => destruct X end; inversion HE. reflexivity.
+    - destruct v; try discriminate. destruct (sfind E _ c); [|discriminate].
+      match type of HE with (bind ?X _ = _) => destruct X end; inversion HE. reflexivity.
+    - destruct v; try discriminate. destruct (sfind E _ c); [|discriminate]. cbv zeta in HE.
       match type of HE with (bind ?X _ = _) => destruct X end; inversion HE. reflexivity.
   Qed.
 
-  Lemma dec_key_id k kt : key_id kt = true -> conf E k kt = true -> ref_dec E P k kt = Ok k /\ ref_enc E P k kt = Ok k.
+  Lemma const_ty_conf_eq t c x : const_ty t = Some c -> conf_ord E x t = true -> x = c.
+  Proof.
+    intros Hc HC. rewrite conf_unfold in HC.
+    destruct t as [ | | | | | | | | | | | | [|t1 ts1] | | t' | | | ]; try discriminate Hc; inversion Hc; subst.
+    - apply is_none_eq0. exact HC.
+    - destruct x as [ | | | | | | | [|x0 l] | | | | | | | ]; try discriminate HC. reflexivity.
+  Qed.
+
+  Lemma dec_key_id k kt : key_id kt = true -> conf_ord E k kt = true -> ref_dec E P k kt = Ok k /\ ref_enc E P k kt = Ok k.
   Proof.
     intros Hk HC. rewrite conf_unfold in HC. rewrite ref_dec_unfold, ref_enc_unfold.
     destruct kt; try discriminate; destruct k; try discriminate; split; reflexivity.
   Qed.
 
   Definition rt_ok (v: pv) : Prop :=
-    forall t w, conf E v t = true -> lossless t = true -> vals_ok v = true ->
+    forall t w, conf_ord E v t = true -> lossless t = true -> vals_ok v = true ->
                 ref_enc E P v t = Ok w -> ref_dec E P w t = Ok v.
 
   (* element-wise round trip of a list *)
   Lemma mapM_rt (l: list pv) t' :
-    Forall rt_ok l -> forallb (fun x => conf E x t') l = true -> lossless t' = true ->
+    Forall rt_ok l -> forallb (fun x => conf_ord E x t') l = true -> lossless t' = true ->
     forallb vals_ok l = true ->
     forall r, mapM (fun x => ref_enc E P x t') l = Ok r -> mapM (fun x => ref_dec E P x t') r = Ok l.
   Proof.
@@ -207,7 +284,7 @@ Section C01.
        | [], [] => true
        | f :: fds', (n, x) :: fs' =>
            String.eqb n f.(sf_name) &&
-           ((sfield_nullable f && is_none x) || conf E x f.(sf_ty)) && go fds' fs'
+           ((sfield_nullable f && is_none x) || conf_ord E x f.(sf_ty)) && go fds' fs'
        | _, _ => false end) fds fs.
 
   Definition dec_fields (c: string) (R: list (pv * pv)) (fds: list sfield) : res (list (string * pv)) :=
@@ -300,7 +377,7 @@ Section C01.
   Proof.
     induction v as [ | b | z | f | s | m b | l IHl | l IHl | fr l IHl | kvs IHk | c fs IHf | e m | k w | c l IHl | tg ]
       using pv_rect'; unfold rt_ok.
-    all: intros t; induction t as [ | | | | | | m' | k' | e' | t' IHt | fr' t' IHt | t' IHt | ts | kt IHkt vt IHvt | t' IHt | c' ];
+    all: intros t; induction t as [ | | | | | | m' | k' | e' | t' IHt | fr' t' IHt | t' IHt | ts | kt IHkt vt IHvt | t' IHt | c' | c' | c' ];
       intros w0 HC HL HV HE; rewrite conf_unfold in HC; try discriminate HC;
       rewrite ref_enc_unfold in HE;
       try (inversion HE; subst; rewrite ref_dec_unfold; reflexivity).
@@ -372,11 +449,54 @@ Section C01.
       rewrite ref_dec_unfold.
       rewrite (dict_of_pairs_nodup r) by (rewrite (nodup_keys_fst r kvs Hk); exact Hnd).
       rewrite Hm. cbn [bind]. rewrite (dict_of_pairs_nodup kvs Hnd). reflexivity.
+    - (* TypedDict *)
+      destruct (sfind E _ c') as [k|] eqn:Ef; [|discriminate HC].
+      assert (Hk: cls_ok k = true).
+      { rewrite forallb_forall in env_ok. apply env_ok. apply (sfind_In E _ c' k Ef). }
+      unfold cls_ok in Hk. apply andb_prop in Hk. destruct Hk as [Hnn Hll].
+      apply andb_prop in HC. destruct HC as [HC Hs]. apply andb_prop in HC. destruct HC as [_ HCf].
+      rewrite vals_ok_unfold in HV. apply andb_prop in HV. destruct HV as [_ HVl].
+      cbv zeta in HE, HCf.
+      match type of HE with (bind ?X _ = _) => destruct X as [R|] eqn:Em end; [|discriminate HE]. inversion HE; subst w0. clear HE.
+      rewrite ref_dec_unfold, Ef. cbv zeta.
+      pose proof (names_nodup_td_order _ Hnn) as Hno.
+      assert (Hgo: td_go (fun f dx => dx (sf_ty f)) konst_t XKeyError
+                     (map (fun p : pv * pv => match p with (key, x) => (key, ref_dec E P x) end) R) (td_order (sc_fields k)) = Ok kvs);
+        [|rewrite Hgo; reflexivity].
+      rewrite forallb_forall in HCf, Hll.
+      (* facts about the entry of a field in the value *)
+      assert (Hent: forall f x, In f (sc_fields k) -> look kvs (sf_name f) = Some x ->
+                forall y, ref_enc E P x (sf_ty f) = Ok y ->
+                  ref_dec E P y (sf_ty f) = Ok x /\ conf_ord E x (sf_ty f) = true).
+      { intros f x Hf El y Hy. pose proof (HCf f Hf) as Cx. rewrite (look_map (conf_ord E) kvs), El in Cx. cbn [option_map] in Cx.
+        destruct (look_In _ _ _ El) as [key [Hin _]].
+        pose proof (Forall_In _ _ IHk (key, x) Hin) as [_ Qx]. cbn [snd] in Qx.
+        rewrite forallb_forall in HVl. pose proof (HVl (key, x) Hin) as Vx. cbn in Vx. apply andb_prop in Vx. destruct Vx as [_ Vx].
+        split; [apply (Qx (sf_ty f) y Cx (Hll f Hf) Vx Hy) | exact Cx]. }
+      rewrite (td_go_ext _ (fun (_: sfield) (x: pv) => Ok x) _ (fun _ => None) XKeyError _ ([] ++ kvs)).
+      + apply (td_go_id XKeyError _ Hno kvs [] Hs); [reflexivity|].
+        intros f Hf Ho Hl. cbn [app] in Hl. pose proof (HCf f (In_td_order _ _ Hf)) as Cx.
+        rewrite (look_map (conf_ord E) kvs), Hl, Ho in Cx. discriminate Cx.
+      + intros f Hf. cbn [app]. unfold td_field. rewrite (look_map (ref_dec E P) R).
+        pose proof (In_td_order _ _ Hf) as Hf'.
+        destruct (td_go_look _ _ _ _ _ _ Hno Em f Hf) as [[Hnone Hl] | [y [Hsome Hl]]]; rewrite Hl; cbn [option_map];
+          unfold td_field in *; rewrite (look_map (ref_enc E P) kvs) in *.
+        * (* the key was left out: it is optional and absent from the value *)
+          destruct (sf_opt f); [|destruct (look kvs (sf_name f)); discriminate Hnone].
+          destruct (look kvs (sf_name f)); [discriminate Hnone | reflexivity].
+        * destruct (look kvs (sf_name f)) as [x|] eqn:El; cbn [option_map] in Hsome.
+          2: { destruct (sf_opt f); discriminate Hsome. }
+          assert (Hy: ref_enc E P x (sf_ty f) = Ok y).
+          { destruct (sf_opt f); cbv beta iota in Hsome; injection Hsome as Hy'; exact Hy'. }
+          destruct (Hent f x Hf' El y Hy) as [Hd Cx].
+          destruct (sf_opt f); [rewrite Hd; reflexivity|].
+          destruct (konst_t f) as [c|] eqn:Ek; [|rewrite Hd; reflexivity].
+          rewrite (const_ty_conf_eq _ c x Ek Cx). reflexivity.
     - (* dataclass *)
       apply andb_prop in HC. destruct HC as [Hc HC]. apply String.eqb_eq in Hc. subst c'.
-      destruct (sfind E c) as [k|] eqn:Ef; [|discriminate].
+      destruct (sfind E _ c) as [k|] eqn:Ef; [|discriminate].
       assert (Hk: cls_ok k = true).
-      { rewrite forallb_forall in env_ok. apply env_ok. apply (sfind_In E c k Ef). }
+      { rewrite forallb_forall in env_ok. apply env_ok. apply (sfind_In E _ c k Ef). }
       unfold cls_ok in Hk. apply andb_prop in Hk. destruct Hk as [Hnn Hll].
       rewrite vals_ok_unfold in HV. apply andb_prop in HV. destruct HV as [_ HVf].
       fold (enc_fields (sc_fields k) fs) in HE. fold (conf_fields (sc_fields k) fs) in HC.
@@ -397,21 +517,62 @@ Section C01.
       apply andb_prop in HA. destruct HA as [_ HA]. apply String.eqb_eq in HC. subst k'.
       rewrite ref_dec_unfold. destruct (p_parse P k (p_render P k w)) as [w'|]; [|discriminate].
       apply String.eqb_eq in HA. subst. reflexivity.
+    - (* NamedTuple *)
+      apply andb_prop in HC. destruct HC as [Hc HC]. apply String.eqb_eq in Hc. subst c'.
+      destruct (sfind E _ c) as [k|] eqn:Ef; [|discriminate HC].
+      assert (Hk: cls_ok k = true).
+      { rewrite forallb_forall in env_ok. apply env_ok. apply (sfind_In E _ c k Ef). }
+      unfold cls_ok in Hk. apply andb_prop in Hk. destruct Hk as [_ Hll].
+      rewrite vals_ok_unfold in HV. apply andb_prop in HV. destruct HV as [_ HVl].
+      match type of HE with (bind ?X _ = _) => destruct X as [r|] eqn:Em end; [|discriminate HE]. inversion HE; subst w0. clear HE.
+      rewrite ref_dec_unfold, Ef.
+      assert (Hr: forall f x y, In f (sc_fields k) -> In x l -> conf_ord E x (sf_ty f) = true ->
+                    ref_enc E P x (sf_ty f) = Ok y -> ref_dec E P y (sf_ty f) = Ok x).
+      { intros f x y Hf Hx Hq Hy. rewrite forallb_forall in Hll, HVl.
+        apply (Forall_In _ _ IHl x Hx (sf_ty f) y Hq (Hll f Hf) (HVl x Hx) Hy). }
+      rewrite (nt_items_rt _ _ (fun f y => ref_dec E P y (sf_ty f)) _ _ konst_t
+                 (nt_exhausted (has_default (sc_fields k))) _ l r HC Hr Em). reflexivity.
   Qed.
 End C01.
 
 (* ------------------------------------------------------------------ *)
 (* totality: a conforming value whose enum members have values is always encoded, so
    the round-trip theorem is not vacuous for any such value *)
+Lemma td_go_total {D} (run: sfield -> D -> res pv) konst ms es order :
+  (forall f, In f order -> forall e, td_field run konst ms es f <> Some (Exn e)) ->
+  exists R, td_go run konst ms es order = Ok R.
+Proof.
+  induction order as [|f rest IH]; intros H; [exists []; reflexivity|].
+  destruct IH as [tl Htl]; [intros g Hg; apply H; right; exact Hg|].
+  cbn [td_go]. pose proof (H f (or_introl eq_refl)) as Hf.
+  destruct (td_field run konst ms es f) as [[y|e]|].
+  - cbn [bind]. rewrite Htl. eexists. reflexivity.
+  - exfalso. apply (Hf e). reflexivity.
+  - exists tl. exact Htl.
+Qed.
+
+Lemma nt_items_total {X} (qc: sfield -> X -> bool) (run: sfield -> X -> res pv) kn ms fds (l: list X) :
+  nt_all qc fds l = true -> (forall f x, In x l -> qc f x = true -> exists y, run f x = Ok y) ->
+  exists r, nt_items run kn ms fds l = Ok r.
+Proof.
+  revert fds. induction l as [|x l IH]; intros fds HA Hr.
+  - destruct fds; [exists []; reflexivity | discriminate HA].
+  - destruct fds as [|f rest]; [discriminate HA|]. cbn [nt_all] in HA. apply andb_prop in HA. destruct HA as [Hq HA].
+    destruct (Hr f x (or_introl eq_refl) Hq) as [y Hy].
+    destruct (IH rest HA) as [ys Hys]; [intros f0 x0 Hx0; apply Hr; right; exact Hx0|].
+    exists (y :: ys). cbn [nt_items]. rewrite Hy, Hys. reflexivity.
+Qed.
+
 Section Total.
+  Variable o : bool.
   Variable E : senv.
   Variable P : prims.
 
   Definition enc_total_ok (v: pv) : Prop :=
-    forall t, conf E v t = true -> vals_ok P v = true -> exists w, ref_enc E P v t = Ok w.
+    forall t, conf_g o E v t = true -> vals_ok P v = true -> exists w, ref_enc E P v t = Ok w.
 
   Lemma mapM_total (l: list pv) t' :
-    Forall enc_total_ok l -> forallb (fun x => conf E x t') l = true -> forallb (vals_ok P) l = true ->
+    Forall enc_total_ok l -> forallb (fun x => conf_g o E x t') l = true -> forallb (vals_ok P) l = true ->
     exists r, mapM (fun x => ref_enc E P x t') l = Ok r.
   Proof.
     intros HF. induction HF as [|x l Hx HF IH]; intros HC HV.
@@ -425,7 +586,7 @@ Section Total.
   Proof.
     induction v as [ | b | z | f | s | m b | l IHl | l IHl | fr l IHl | kvs IHk | c fs IHf | e m | k w | c l IHl | tg ]
       using pv_rect'; unfold enc_total_ok.
-    all: intros t; induction t as [ | | | | | | m' | k' | e' | t' IHt | fr' t' IHt | t' IHt | ts | kt IHkt vt IHvt | t' IHt | c' ];
+    all: intros t; induction t as [ | | | | | | m' | k' | e' | t' IHt | fr' t' IHt | t' IHt | ts | kt IHkt vt IHvt | t' IHt | c' | c' | c' ];
       intros HC HV; rewrite conf_unfold in HC; try discriminate HC;
       rewrite ref_enc_unfold; try (eexists; reflexivity).
     (* Optional of a non-None value *)
@@ -458,9 +619,25 @@ Section Total.
         inversion IHk as [|? ? [Qk Qx] Qkvs]; subst. cbn [fst snd] in Qk, Qx.
         destruct (Qk kt Ck Vk) as [k1 Ek]. destruct (Qx vt Cx Vx) as [x1 Ex]. destruct (IHkvs Qkvs Cl Vl) as [ys Eys].
         exists ((k1, x1) :: ys). cbn [mapM]. rewrite Ek. cbn [bind]. rewrite Ex. cbn [bind]. rewrite Eys. reflexivity.
+    - (* TypedDict *)
+      destruct (sfind E _ c') as [k0|]; [|discriminate HC].
+      apply andb_prop in HC. destruct HC as [HC _]. apply andb_prop in HC. destruct HC as [_ HCf].
+      rewrite vals_ok_unfold in HV. apply andb_prop in HV. destruct HV as [_ HVl].
+      cbv zeta in HCf |- *.
+      match goal with |- exists w, bind ?X _ = _ => assert (Hgo: exists r, X = Ok r) end;
+        [|destruct Hgo as [r Er]; rewrite Er; eexists; reflexivity].
+      apply td_go_total. intros f Hf e He. apply In_td_order in Hf.
+      rewrite forallb_forall in HCf. specialize (HCf f Hf). rewrite (look_map (conf_g o E) kvs) in HCf.
+      unfold td_field in He. rewrite (look_map (ref_enc E P) kvs) in He.
+      destruct (look kvs (sf_name f)) as [x|] eqn:El; cbn [option_map] in *.
+      + destruct (look_In _ _ _ El) as [key [Hin _]].
+        pose proof (Forall_In _ _ IHk (key, x) Hin) as [_ Qx]. cbn [snd] in Qx.
+        rewrite forallb_forall in HVl. pose proof (HVl (key, x) Hin) as Vx. cbn in Vx. apply andb_prop in Vx. destruct Vx as [_ Vx].
+        destruct (Qx (sf_ty f) HCf Vx) as [y Hy]. rewrite Hy in He. destruct (sf_opt f); discriminate He.
+      + rewrite HCf in He. discriminate He.
     - (* dataclass *)
       apply andb_prop in HC. destruct HC as [_ HC].
-      destruct (sfind E c') as [k0|]; [|discriminate HC].
+      destruct (sfind E _ c') as [k0|]; [|discriminate HC].
       rewrite vals_ok_unfold in HV. apply andb_prop in HV. destruct HV as [_ HVf].
       match goal with |- exists w, bind ?X _ = _ => assert (Hgo: exists r, X = Ok r) end;
         [|destruct Hgo as [r Er]; rewrite Er; eexists; reflexivity].
@@ -479,5 +656,13 @@ Section Total.
     - (* enum *)
       rewrite vals_ok_unfold in HV. apply andb_prop in HV. destruct HV as [HA _]. cbn [atom_ok] in HA.
       destruct (p_enum_value P e m) as [val|]; [|discriminate HA]. eexists. reflexivity.
+    - (* NamedTuple *)
+      apply andb_prop in HC. destruct HC as [_ HC].
+      destruct (sfind E _ c') as [k0|]; [|discriminate HC].
+      rewrite vals_ok_unfold in HV. apply andb_prop in HV. destruct HV as [_ HVl].
+      match goal with |- exists w, bind ?X _ = _ => assert (Hgo: exists r, X = Ok r) end;
+        [|destruct Hgo as [r Er]; rewrite Er; eexists; reflexivity].
+      apply (nt_items_total (fun f x => conf_g o E x (sf_ty f))); [exact HC|].
+      intros f x Hx Hq. rewrite forallb_forall in HVl. apply (Forall_In _ _ IHl x Hx (sf_ty f) Hq (HVl x Hx)).
   Qed.
 End Total.
